@@ -11,7 +11,7 @@ mod = importlib.import_module(sys.argv[1])
 tier = sys.argv[2]
 sub = sys.argv[3] if len(sys.argv) > 3 and not sys.argv[3].startswith("--") else ""
 cfgs = [c for c in mod.configs(tier, 0) if sub in c["id"]]
-budget = getattr(mod, "CONFIG_BUDGET_S", {"quick": 900, "thorough": 3600})[tier]
+budget = getattr(mod, "CONFIG_BUDGET_S", {"quick": 900, "thorough": 1800})[tier]
 if "--float" in sys.argv:
     from symsig import oracle as O
     for c in cfgs:
